@@ -19,3 +19,4 @@ CFG = dict(
      timeout_quick=600, timeout_thorough=3000)
 CFG["rule"] += ' Added after independently written breaking changes: The pending-events cap is asserted in racy bursts too: once settled, the Adds issued after the most recent signal number fewer than the cap.'
 CFG["rule"] += ' MaxDelay = InitialDelay*mul + extra, so the ratio need not be a whole number. TestCoalescingEchoConsumer: the consumer answers every signal with cap Adds at once while the injected clock never moves; when the bubble is quiescent it must have received one signal per answer (non-trivial: every case).'
+CFG["rule"] += " TestCloseRightAfterAdd and TestCloseAroundRunStart: Close a few scheduler yields after Add, before Run, racing the start of Run, and again afterwards - census of parked / unstarted limiter goroutines at Close's return, nothing arrives afterwards, every call returns. TestCoalescingParallelCap: k simultaneous Adds (one goroutine each, behind a gate) with cap k and the clock standing still: exactly one signal per round."
